@@ -426,7 +426,7 @@ pub fn build(tier: &str) -> SimCheck {
         scenarios,
         oracle: Box::new(oracle),
         bound: if thorough { 3 } else { 2 },
-        limits: Limits { max_wall_s: if thorough { 1500.0 } else { 55.0 }, ..Default::default() },
+        limits: Limits { max_wall_s: if thorough { 1500.0 } else { 150.0 }, ..Default::default() },
         rule: "scenario = (old, new) configuration pair (identical rewrite, pool added / removed, server list / password / pool_size / pool_mode / general setting changed, invalid TOML, two primaries, bad default_role, default_shard one past the last shard, read/write splitting or plugins without the parser, unparsable shard regex, unqualified automatic sharding key; failover and default_role change on a pool that parses statements without read/write splitting; also from non-initial definitions) x RELOAD via the admin console or via the SIGHUP path; two clients on an affected and an unaffected pool run three transactions each, a late client logs in afterwards; the reload is placed at every point of their schedules with <= bound deviations".into(),
         assumptions: vec!["the SIGHUP path is exercised by calling reload_config(), which is all the signal handler does".into()],
     }
